@@ -279,9 +279,21 @@ func CheckExec(prop, tier string) int {
 			confTraces = append(confTraces, t)
 		}
 	}
-	mv := ValidateModelParallel(progs, confTraces, "ExecTrace.cfg", bud.Workers)
+	confBudget := 6 * time.Minute
+	if tier == "thorough" {
+		confBudget = 15 * time.Minute
+	}
+	mv := ValidateModelParallel(progs, confTraces, "ExecTrace.cfg", bud.Workers, time.Now().Add(confBudget))
 	if mv.Err != nil {
-		rp.Note("NOTE: conformance validation incomplete: %v", mv.Err)
+		fmt.Printf("ERROR: conformance validation failed: %v\n", mv.Err)
+		return 2
+	}
+	if mv.Unchecked > 0 {
+		rp.Note("NOTE: %d of %d traces were not validated against Exec.tla within the time budget (slow single traces: %v)", mv.Unchecked, len(confTraces), mv.Slow)
+	}
+	if mv.Accepted+len(mv.Rejected) == 0 && len(confTraces) > 0 {
+		fmt.Println("ERROR: no trace could be validated against Exec.tla within the time budget (exit 2)")
+		return 2
 	}
 	for _, nc := range mv.Rejected {
 		k := where[nc.ID]
@@ -448,7 +460,7 @@ func CheckExec(prop, tier string) int {
 			"rule": "programs: hand-written core scenarios + seeded sample from the " + prop + " profile; schedules: depth-first enumeration of release orders of blocked probes and gates (cap per program) + seeded random orders; a trace is non-trivial when it exercises the property's antecedent (e.g. C01: a task with deps ran commands); distinct = different program or event sequence",
 			"programs": len(progs), "programs_model_checked": len(mcProgs), "programs_with_all_release_orders_enumerated": exhausted,
 			"mc_design_ok": mc.OK, "mc_timed_out": mc.TimedOut, "liveness_states": live.Distinct, "liveness_ok": live.OK,
-			"conformance_traces": len(confTraces), "conformance_accepted": mv.Accepted, "conformance_rejected": len(mv.Rejected), "conformance_states": mv.States,
+			"conformance_traces": len(confTraces), "conformance_accepted": mv.Accepted, "conformance_rejected": len(mv.Rejected), "conformance_unchecked": mv.Unchecked, "conformance_states": mv.States,
 			"props_eval_states": pv.States,
 			"violation_signatures": seenSig, "harness_errors": harnessErrs, "cli_runs": cliRuns, "cli_mismatches": cliBad, "slots_inductive_invariant_discharged_by_apalache": prop == "C07" && indOK,
 			"exhaustive": false,
@@ -464,8 +476,8 @@ func CheckExec(prop, tier string) int {
 		fmt.Println("ERROR: cannot write evidence:", err)
 		return 2
 	}
-	fmt.Printf("%s %s: %d programs, %d real traces (%d non-trivial), MC %d distinct states (ok=%v), conformance %d/%d accepted, %d violation(s), %.1fs\n",
-		prop, tier, len(progs), len(traces), len(distinctNT), mc.Distinct, mc.OK, mv.Accepted, len(confTraces), rp.Violations, time.Since(t0).Seconds())
+	fmt.Printf("%s %s: %d programs, %d real traces (%d non-trivial), MC %d distinct states (ok=%v), conformance %d/%d accepted (%d unchecked), %d violation(s), %.1fs\n",
+		prop, tier, len(progs), len(traces), len(distinctNT), mc.Distinct, mc.OK, mv.Accepted, len(confTraces), mv.Unchecked, rp.Violations, time.Since(t0).Seconds())
 	if rp.Violations > 0 {
 		return 1
 	}
@@ -480,7 +492,7 @@ func tailStr(s string, n int) string {
 }
 
 // ValidateModelParallel splits the traces over several TLC processes.
-func ValidateModelParallel(progs []*Program, traces []TraceItem, cfg string, workers int) ModelVerdict {
+func ValidateModelParallel(progs []*Program, traces []TraceItem, cfg string, workers int, deadline time.Time) ModelVerdict {
 	if len(traces) == 0 {
 		return ModelVerdict{}
 	}
@@ -499,7 +511,7 @@ func ValidateModelParallel(progs []*Program, traces []TraceItem, cfg string, wor
 			for i := c; i < len(traces); i += chunks {
 				part = append(part, traces[i])
 			}
-			out[c] = ValidateModel(progs, part, cfg)
+			out[c] = ValidateModel(progs, part, cfg, deadline)
 			done <- c
 		}(c)
 	}
@@ -512,6 +524,8 @@ func ValidateModelParallel(progs []*Program, traces []TraceItem, cfg string, wor
 		mv.Rejected = append(mv.Rejected, o.Rejected...)
 		mv.States += o.States
 		mv.Runs += o.Runs
+		mv.Unchecked += o.Unchecked
+		mv.Slow = append(mv.Slow, o.Slow...)
 		if o.Wall > mv.Wall {
 			mv.Wall = o.Wall
 		}
